@@ -34,8 +34,8 @@ STAGE = {
               ("N2-P2-V2", consts(N=2, P=2, V=2, Mx=2, CAs={0, 1, 2}, PAs={1}, BetaSel="general", PBs={0}), 8, [0, 1])],
     "thorough": [("N1-P3-V3", consts(N=1, P=3, V=3, Mx=2, CAs={0, 1, 2}, PAs={1}, BetaSel="general", PBs={0}), 4, None),
                  ("N1-P4-V2", consts(N=1, P=4, V=2, Mx=2, CAs={0, 1, 2}, PAs={1}, BetaSel="general", PBs={0}), 16, None),
-                 ("N1-P5-V2", consts(N=1, P=5, V=2, Mx=2, CAs={0, 1}, PAs={1}, BetaSel="general", PBs={0}), 64, list(range(16))),
-                 ("N1-P6-V1", consts(N=1, P=6, V=1, Mx=2, CAs={0, 1}, PAs={1}, BetaSel="general", PBs={0}), 64, list(range(16))),
+                 ("N1-P5-V2", consts(N=1, P=5, V=2, Mx=2, CAs={0, 1}, PAs={1}, BetaSel="general", PBs={0}), 64, list(range(8))),
+                 ("N1-P6-V1", consts(N=1, P=6, V=1, Mx=2, CAs={0, 1}, PAs={1}, BetaSel="general", PBs={0}), 64, list(range(4))),
                  ("N2-P2-V2", consts(N=2, P=2, V=2, Mx=2, CAs={0, 1, 2}, PAs={1}, BetaSel="general", PBs={0}), 8, None),
                  ("N3-P2-V1", consts(N=3, P=2, V=1, Mx=3, CAs={0, 1}, PAs={1}, BetaSel="general", PBs={0}), 8, None)],
 }
